@@ -191,6 +191,14 @@ theorem gen_refs_resolve_reuse_partial (Δ : Decls) (o : Opts) (fuel : Nat) (pre
   obtain ⟨_, g, hmem⟩ := mem_candidatesFor (hl.1 k c hk).2
   exact hres n ((hc _ hmem).2 n hn)
 
+/-- **Finite after any history, full strength**: on a generator that was used before — for any types, pointer types
+included, whatever those calls returned — `GenerateSchemaRef(t)` terminates within the bound of `gen_finite` (the state
+never lengthens a run: a hit in the type table returns at once). -/
+theorem gen_finite_reuse (Δ : Decls) (o : Opts) (pre : List GoType) (t : GoType) (fuel : Nat) (h : enoughFuel Δ t ≤ fuel) :
+    (genAfter Δ o fuel pre t).1 ≠ .nofuel := by
+  unfold genAfter
+  exact gen_enough_fuel_state Δ o t fuel _ h
+
 /-- a history of no calls is the single call of `gen_sound_partial` -/
 theorem genAfter_nil (Δ : Decls) (o : Opts) (fuel : Nat) (t : GoType) : genAfter Δ o fuel [] t = genRoot Δ o fuel t := rfl
 
